@@ -1,6 +1,6 @@
 (** C06: indexed write then read agree; exactly the addressed cell changes; concatenation yields a fresh list. *)
 From Pakhi Require Import Base Float64 Syntax Tables Lexer Interp.
-From Pakhi.Proofs Require Import Assoc GCMark Alloc ListOps.
+From Pakhi.Proofs Require Import Assoc GCMark Alloc ListOps Unfold.
 From Coq Require Import Lia.
 Local Open Scope nat_scope.
 
@@ -98,7 +98,7 @@ Theorem index_read_list fuel m a p ea ei x l k :
   nth_error (h_lists (m_heap m)) a = Some l -> valid_index x (length l) = Some k ->
   eval code (S fuel) (EIndex ea ei p) m = Ok (nth k l VNil, m).
 Proof.
-  intros Ha Hi Hl Hv. simpl. rewrite Ha. cbn [bind]. rewrite Hi. cbn [bind].
+  intros Ha Hi Hl Hv. rewrite eval_S. unfold eval_step. rewrite Ha. cbn [bind]. rewrite Hi. cbn [bind].
   unfold get_list. rewrite Hl. cbn [bind]. rewrite Hv. reflexivity.
 Qed.
 
